@@ -31,6 +31,8 @@ import (
 	"io"
 	"os"
 	"os/exec"
+	"regexp"
+	"runtime"
 	"strconv"
 	"strings"
 	"sync/atomic"
@@ -58,16 +60,157 @@ func infra(format string, args ...interface{}) {
 var caseStart atomic.Int64
 var caseDesc atomic.Value
 
+// blockedStates are the goroutine wait reasons that only another goroutine
+// of this process can end.
+var blockedStates = map[string]bool{
+	"chan receive": true, "chan send": true, "select": true, "select (no cases)": true, "chan receive (nil chan)": true, "chan send (nil chan)": true,
+	"semacquire": true, "sync.Mutex.Lock": true, "sync.RWMutex.Lock": true, "sync.RWMutex.RLock": true, "sync.Cond.Wait": true, "sync.WaitGroup.Wait": true,
+}
+
+var goroutineHdr = regexp.MustCompile(`^goroutine [0-9]+ \[([^\],]+)`)
+
+// allBlocked reports whether, in a dump of all goroutines taken by the
+// monitor, every other goroutine waits for another goroutine.
+func allBlocked(dump string) bool {
+	blocks := strings.Split(strings.TrimSpace(dump), "\n\n")
+	if len(blocks) < 2 {
+		return false
+	}
+	for _, b := range blocks[1:] { // blocks[0] is the monitor itself
+		m := goroutineHdr.FindStringSubmatch(b)
+		if m == nil || !blockedStates[m[1]] {
+			return false
+		}
+	}
+	return true
+}
+
+// watchdog runs in the child. It decides "the receiver never returns" by
+// state, not by time: every stream ends in EOF and nothing in the process
+// waits for the outside world, so once all goroutines wait for each other
+// they do so forever (the Go runtime's own detector does not fire in this
+// binary). The dump goes to stderr and the child exits with code 4; the
+// supervisor turns it into a verdict if a goroutine is stuck inside p9.
+// Independently, a case that merely takes very long is an infrastructure
+// error (exit 3), never a verdict.
 func watchdog() {
 	go func() {
+		prev := false
 		for {
-			time.Sleep(2 * time.Second)
+			time.Sleep(100 * time.Millisecond)
 			st := caseStart.Load()
-			if st != 0 && time.Since(time.Unix(0, st)) > 60*time.Second {
-				infra("watchdog: case did not finish within 60 s (a receiver that never returns; not a verdict): %v", caseDesc.Load())
+			if st == 0 || time.Since(time.Unix(0, st)) < 400*time.Millisecond {
+				prev = false
+				continue
+			}
+			buf := make([]byte, 4<<20)
+			dump := string(buf[:runtime.Stack(buf, true)])
+			if allBlocked(dump) {
+				if prev && caseStart.Load() == st {
+					fmt.Fprintf(os.Stderr, "C02-DEADLOCK in case %v\n%s\n", caseDesc.Load(), dump)
+					os.Exit(4)
+				}
+				prev = true
+			} else {
+				prev = false
+			}
+			if time.Since(time.Unix(0, st)) > 120*time.Second {
+				infra("watchdog: case did not finish within 120 s without being deadlocked (not a verdict): %v", caseDesc.Load())
 			}
 		}
 	}()
+}
+
+// deadlockInfo analyses the dump of a deadlocked child: is a goroutine stuck
+// inside p9 (as opposed to the harness waiting for p9 to send something)?
+func deadlockInfo(stderr string) (where string, inP9 bool, lines []string) {
+	i := strings.Index(stderr, "C02-DEADLOCK")
+	if i < 0 {
+		return "", false, nil
+	}
+	blocks := strings.Split(strings.TrimSpace(stderr[i:]), "\n\n")
+	var panicking, stuck string
+	for _, b := range blocks {
+		ls := strings.Split(b, "\n")
+		if !goroutineHdr.MatchString(ls[0]) {
+			continue
+		}
+		var fns []string
+		for _, l := range ls[1:] {
+			if l == "" || strings.HasPrefix(l, "\t") || strings.HasPrefix(l, "created by") {
+				continue
+			}
+			fns = append(fns, l)
+		}
+		// the frame that waits: the first one outside runtime/sync/shims
+		for k, f := range fns {
+			if strings.HasPrefix(f, "runtime.") || strings.HasPrefix(f, "sync.") || strings.HasPrefix(f, "internal/") || strings.HasPrefix(f, "verif/rt/") || strings.HasPrefix(f, "reflect.") {
+				continue
+			}
+			if strings.HasPrefix(f, "github.com/hugelgupf/p9/") {
+				if stuck == "" || fnName(f) < stuck {
+					stuck = fnName(f)
+				}
+				if len(lines) < 28 {
+					lines = append(lines, "stuck: "+ls[0])
+					for _, g := range fns[k:] {
+						if len(lines) < 28 {
+							lines = append(lines, "  "+fwShort(g, 160))
+						}
+					}
+				}
+			}
+			break
+		}
+		for k, f := range fns {
+			if strings.HasPrefix(f, "panic(") {
+				for _, g := range fns[k+1:] {
+					if strings.HasPrefix(g, "github.com/hugelgupf/p9/") {
+						panicking = fnName(g)
+						break
+					}
+				}
+			}
+		}
+	}
+	if stuck == "" {
+		return "", false, nil
+	}
+	// A client call that panicked earlier in this case (recovered by the
+	// harness goroutine that made the call) announces itself on stderr.
+	caseID := ""
+	if f := strings.Fields(stderr[i:]); len(f) > 3 {
+		caseID = f[3] // "C02-DEADLOCK in case #idx ..."
+	}
+	if j := strings.LastIndex(stderr[:i], "C02-CLIENT-PANIC case "+caseID+" "); j >= 0 && caseID != "" && panicking == "" {
+		seenPanic := false
+		for _, l := range strings.Split(stderr[j:i], "\n") {
+			l = strings.TrimSpace(l)
+			if strings.HasPrefix(l, "panic(") {
+				seenPanic = true
+			} else if seenPanic && strings.HasPrefix(l, "github.com/hugelgupf/p9/") {
+				panicking = fnName(l)
+				break
+			}
+		}
+	}
+	if panicking != "" {
+		return "panic in " + panicking + ", then stuck", true, lines
+	}
+	return "stuck in " + stuck, true, lines
+}
+
+// fnName strips the argument list and the module path of a traceback line.
+func fnName(l string) string {
+	if i := strings.Index(l, "("); i > 0 {
+		// keep receiver types like p9.(*connState).stop
+		if j := strings.LastIndex(l, "("); j > i || !strings.Contains(l[:i], ".") {
+			l = l[:strings.LastIndex(l, "(")]
+		} else {
+			l = l[:i]
+		}
+	}
+	return strings.TrimPrefix(l, "github.com/hugelgupf/p9/")
 }
 
 func runCase(c *tcase) *outcome {
@@ -285,8 +428,13 @@ func supervise(ctx *fw.Ctx, rep *fw.Report) {
 			fmt.Fprint(os.Stderr, stderr.String())
 			infra("child reported an infrastructure error")
 		}
-		// The child died. Whose fault?
+		// The child deadlocked or died. Whose fault?
 		reason, inP9, lines := crashInfo(stderr.String())
+		kind := "process-crash"
+		if ee, ok := werr.(*exec.ExitError); ok && ee.ExitCode() == 4 {
+			kind = "hang"
+			reason, inP9, lines = deadlockInfo(stderr.String())
+		}
 		if started < 0 || reason == "" || !inP9 {
 			fmt.Fprint(os.Stderr, tail(stderr.String(), 6000))
 			infra("child died outside p9 (case %d, reason %q, err %v)", started, reason, werr)
@@ -297,12 +445,12 @@ func supervise(ctx *fw.Ctx, rep *fw.Report) {
 		}
 		rep.States++
 		rep.Traces++
-		rep.Count("process_crashes", 1)
-		rep.Distinct("crash|" + c.Side + "|" + c.TypeName + "|" + reason)
+		rep.Count("process_crashes_or_hangs", 1)
+		rep.Distinct(kind + "|" + c.Side + "|" + crashClass(c) + "|" + reason)
 		rep.Violate(violationOf(c, viol{
 			prio:    pPanic,
-			fp:      fmt.Sprintf("process-crash|%s|%s|%s", c.Side, c.TypeName, reason),
-			summary: fmt.Sprintf("the process died (%s) while the %s received a %s frame (%s: %s)", reason, c.Side, c.TypeName, c.Family, c.Desc),
+			fp:      fmt.Sprintf("%s|%s|%s|%s", kind, c.Side, crashClass(c), reason),
+			summary: crashSummary(kind, reason, c),
 			detail:  append([]string{"case: " + c.Desc}, lines...),
 		}))
 		crashes++
@@ -312,6 +460,25 @@ func supervise(ctx *fw.Ctx, rep *fw.Report) {
 		}
 		from = started + 1
 	}
+}
+
+// crashClass is the input class of a crashing case for the fingerprint: the
+// malformation that triggered it, or the message type if the stream is
+// entirely well-formed.
+func crashClass(c *tcase) string {
+	lim := c.limit()
+	t := trigger(c, classifyStream(c.stream, limits{lim, lim}, c.Side == "server"))
+	if t == "wellformed" {
+		return c.TypeName
+	}
+	return t
+}
+
+func crashSummary(kind, reason string, c *tcase) string {
+	if kind == "hang" {
+		return fmt.Sprintf("the %s never returned (every goroutine blocked; %s) after receiving a %s frame (%s: %s) followed by EOF", c.Side, reason, c.TypeName, c.Family, c.Desc)
+	}
+	return fmt.Sprintf("the process died (%s) while the %s received a %s frame (%s: %s)", reason, c.Side, c.TypeName, c.Family, c.Desc)
 }
 
 func tail(s string, n int) string {
@@ -353,12 +520,16 @@ func replay(ctx *fw.Ctx, rep *fw.Report) {
 	werr := cmd.Wait()
 	if werr != nil {
 		reason, inP9, lines := crashInfo(stderr.String())
+		kind := "process-crash"
+		if ee, ok := werr.(*exec.ExitError); ok && ee.ExitCode() == 4 {
+			kind = "hang"
+			reason, inP9, lines = deadlockInfo(stderr.String())
+		}
 		if reason == "" || !inP9 {
 			fmt.Fprint(os.Stderr, tail(stderr.String(), 6000))
 			infra("replay: child failed: %v", werr)
 		}
-		rep.Violate(violationOf(c, viol{fp: fmt.Sprintf("process-crash|%s|%s|%s", c.Side, c.TypeName, reason),
-			summary: fmt.Sprintf("the process died (%s) while the %s received a %s frame (%s: %s)", reason, c.Side, c.TypeName, c.Family, c.Desc), detail: lines}))
+		rep.Violate(violationOf(c, viol{fp: fmt.Sprintf("%s|%s|%s|%s", kind, c.Side, crashClass(c), reason), summary: crashSummary(kind, reason, c), detail: lines}))
 		return
 	}
 	var vs []*fw.Violation
